@@ -78,6 +78,10 @@ theorem emitPub_out (b : B) (conn : String) (p : Pkt) :
 /-- the P-stream entries for a list of packets -/
 def pOuts (conn : String) (ps : List Pkt) : List Out := ps.map (fun p => { conn := conn, poll := true, pkt := p })
 
+/-- the P-stream packets written to `conn` since `b0` -/
+def newP (b0 b : B) (conn : String) : List Pkt :=
+  ((b.out.drop b0.out.length).filter (fun o => o.conn == conn && o.poll)).map (·.pkt)
+
 theorem foldl_emitPub_out (conn : String) (f : Queue.Elem → Pkt) (out : List Queue.Elem) (b : B) :
     let b' := out.foldl (fun bb (e : Queue.Elem) => bb.emitPub conn (f e)) b
     PubEmit conn b b' ∧
